@@ -851,6 +851,96 @@ def _run_history(args):
     return {"violation": violation, "soft": sim.soft[:3], "stats": sim.stats, "log_digest": W.digest(sim.log), "nlog": len(sim.log)}
 
 
+_SWEEP_VALUES = {
+    # parameter name -> two distinct legal values
+    "axis": (0, 1), "dim": (0, 1), "dim1": (0, 1), "dim2": (1, 2), "axis1": (0, 1), "axis2": (1, 0), "offset": (0, 1), "ddof": (0, 1),
+    "keepdims": (False, True), "upper": (False, True), "transpose": (False, True), "validate_args": (True, False),
+    "shape": ((2, 3), (3, 2)), "value": (1.0, 2.0), "index": (slice(0, 2), 0), "equation": ("a,a->", "ab,b->a"),
+    "mode": ("reduced", "complete"), "dtype": ("float32", "float64"), "start": (0, 1), "stop": (2, 3), "step": (1, 2),
+    "min": (0.0, 0.5), "max": (1.0, 2.0), "dims": ((1, 0), (0, 1)), "fn": (_shift, _scale), "source": (0, 1), "destination": (1, 0),
+}
+
+
+def _op_family_sweep(_payload=None):
+    """Every parametrised op family of funsor.ops, by introspection: for each
+    parameter with two known legal values, the two requests (both alive) are
+    different ops that carry the values asked for; an equal request and a
+    pickle round trip return the identical op."""
+    import inspect
+    import pickle
+
+    import funsor
+    from funsor import ops
+    from funsor.ops.op import Op
+
+    stats = {"sweep_families": 0, "sweep_parameters": 0, "sweep_skipped": 0}
+    seen = set()
+    for name in sorted(dir(ops)):
+        obj = getattr(ops, name)
+        if not isinstance(obj, Op) or type(obj) in seen:
+            continue
+        cls = type(obj)
+        seen.add(cls)
+        params = list(cls.signature.parameters)[cls.arity :]
+        if not params:
+            continue
+        stats["sweep_families"] += 1
+        for p in params:
+            vals = _SWEEP_VALUES.get(p)
+            if vals is None:
+                stats["sweep_skipped"] += 1
+                continue
+            try:
+                a = cls(**{p: vals[0]})
+                b = cls(**{p: vals[1]})
+            except Exception:  # noqa
+                stats["sweep_skipped"] += 1
+                continue
+            stats["sweep_parameters"] += 1
+            what = "ops.%s(%s=%r) / (%s=%r)" % (cls.__name__, p, vals[0], p, vals[1])
+            if a is b:
+                return {"violation": {"invariant": "I3-stale-object", "message": "%s: the second request was answered with the first op" % what}, "stats": stats}
+            if a.defaults.get(p) != vals[0] or b.defaults.get(p) != vals[1]:
+                return {"violation": {"invariant": "I3-stale-object", "message": "%s: parameters carried are %r and %r" % (what, a.defaults.get(p), b.defaults.get(p))}, "stats": stats}
+            if cls(**{p: vals[0]}) is not a or cls(**{p: vals[1]}) is not b:
+                return {"violation": {"invariant": "I2-not-identical", "message": "%s: an equal request returned a different op while the first is alive" % what}, "stats": stats}
+            for x in (a, b):
+                try:
+                    back = pickle.loads(pickle.dumps(x))
+                except Exception:  # noqa
+                    continue
+                if back is not x:
+                    return {"violation": {"invariant": "I5-pickle-roundtrip", "message": "%s: the pickle round trip of %r returned a different op (%r)" % (what, dict(x.defaults), dict(back.defaults))}, "stats": stats}
+    # domains: every (dtype, shape) of a small grid, and products of two of them
+    from funsor.domains import Array, Product
+
+    grid = [(dt, sh) for dt in ("real", 2, 3, 5) for sh in ((), (2,), (3,), (2, 3), (3, 2), (1,), (2, 1))]
+    live = {}
+    for dt, sh in grid:
+        d = Array[dt, sh]
+        live[(dt, sh)] = d
+        stats["sweep_domains"] = stats.get("sweep_domains", 0) + 1
+        what = "Array[%r, %r]" % (dt, sh)
+        if d.dtype != dt or tuple(d.shape) != sh:
+            return {"violation": {"invariant": "I3-stale-object", "message": "%s is a domain with dtype %r and shape %r" % (what, d.dtype, tuple(d.shape))}, "stats": stats}
+        if Array[dt, sh] is not d:
+            return {"violation": {"invariant": "I2-not-identical", "message": "%s requested twice gave two live domains" % what}, "stats": stats}
+        back = pickle.loads(pickle.dumps(d))
+        if back is not d:
+            return {"violation": {"invariant": "I5-pickle-roundtrip", "message": "%s came back from pickle as %r" % (what, back)}, "stats": stats}
+        v = funsor.Variable("m", d)
+        if pickle.loads(pickle.dumps(v)) is not v:
+            return {"violation": {"invariant": "I5-pickle-roundtrip", "message": "Variable('m', %s) came back from pickle as a different term" % what}, "stats": stats}
+    if len(set(map(id, live.values()))) != len(live):
+        return {"violation": {"invariant": "I3-stale-object", "message": "two different (dtype, shape) requests share one domain object"}, "stats": stats}
+    keys = sorted(live, key=repr)
+    for i in range(0, len(keys) - 1, 3):
+        pd = Product[live[keys[i]], live[keys[i + 1]]]
+        if Product[live[keys[i]], live[keys[i + 1]]] is not pd:  # (Product domains cannot be pickled at all: an exception, not an identity question)
+            return {"violation": {"invariant": "I2-not-identical", "message": "Product[%r, %r] requested twice gave two live domains" % (keys[i], keys[i + 1])}, "stats": stats}
+    return {"violation": None, "stats": stats}
+
+
 def run_histories(payload):
     from sim.iso import fork_call
 
@@ -867,7 +957,20 @@ def run_histories(payload):
     sample = None
     nontrivial = 0
     soft_seen = set()
+    sweep = fork_call(_op_family_sweep, (None,), timeout=60)
+    if sweep.get("status") == "ok":
+        for k, v in sweep["res"]["stats"].items():
+            tot[k] = tot.get(k, 0) + v
+        if sweep["res"]["violation"]:
+            v = sweep["res"]["violation"]
+            v["fingerprint"] = v["invariant"] + "|op-sweep"
+            v["history"] = []
+            violations.append(v)
+    else:
+        errors += 1
     for hist in hists:
+        if violations and violations[0].get("fingerprint", "").endswith("op-sweep"):
+            break
         res = fork_call(_run_history, (hist,), timeout=60)
         if res.get("status") != "ok":
             errors += 1
@@ -1184,6 +1287,7 @@ def summarize(jobs, results, tier):
         "I5_pickle_identical": tot.get("pickle_identical", 0),
         "pickle_distinct_objects": tot.get("pickle_distinct", 0),
         "array_ids_recycled": tot.get("id_recycled", 0),
+        "op_family_sweep": {"families": tot.get("sweep_families", 0), "parameters_with_two_values": tot.get("sweep_parameters", 0), "parameters_skipped": tot.get("sweep_skipped", 0)},
         "short_histories_enumerated_completely": tot.get("enumerated_short_histories", 0),
         "restarts_into_a_new_interpreter": tot.get("restarts", 0),
         "survivors_unpickled_after_restart": tot.get("survivors", 0),
